@@ -107,7 +107,22 @@ func c09LeanOptB(known, v bool) string {
 	return "(some false)"
 }
 
-func factsStore(c *factsCtx, outdir string) error {
+// c09Src: what both the facts translator and the oracle `c09store` read from store/*.go (the oracle takes
+// blockSize and the header length from here, so that its structural sweeps follow the source).
+type c09Src struct {
+	env      map[string]int64
+	where    map[string]string
+	strConst map[string]string
+	funcs    map[string]*ast.FuncDecl
+
+	blockSize, version int64
+	okBS, okV, okID    bool
+	headerID           string
+	shape              bool
+	header             []int
+}
+
+func c09ParseStoreSource(c *factsCtx) *c09Src {
 	files := c.parseDir("store")
 	env := map[string]int64{}
 	where := map[string]string{}
@@ -209,6 +224,15 @@ func factsStore(c *factsCtx, outdir string) error {
 		}
 	}
 
+	return &c09Src{env: env, where: where, strConst: strConst, funcs: funcs, blockSize: blockSize, version: version,
+		okBS: okBS, okV: okV, okID: okID, headerID: headerID, shape: shape, header: header}
+}
+
+func factsStore(c *factsCtx, outdir string) error {
+	src := c09ParseStoreSource(c)
+	where, funcs := src.where, src.funcs
+	blockSize, okBS, version, okV, headerID, okID, shape, header := src.blockSize, src.okBS, src.version, src.okV, src.headerID, src.okID, src.shape, src.header
+
 	// getEncryptedBlockSize returns blockSize + aead.Overhead()
 	pieceKnown, pieceOK := false, false
 	if fd := funcs["getEncryptedBlockSize"]; fd != nil && len(fd.Body.List) == 1 {
@@ -278,6 +302,51 @@ func factsStore(c *factsCtx, outdir string) error {
 							eofKnown, eofSwallowed = true, true
 						}
 					}
+				}
+			}
+			return true
+		})
+	}
+
+	// Get, reader goroutine: a piece that does not open must end the plain-text stream with an ERROR
+	// (`writer.CloseWithError(<non-nil error built from the err of that very Open>)` then `return`), directly in the
+	// `if err != nil` that follows `decrypted, err := c.gcm.Open(...)` - the model's `Term.fail`.  Anything else
+	// (a deferred close reading some other variable, an assignment to a shadowed err, …) is not recognised.
+	openFailKnown, openFailErr := false, false
+	if fd := funcs["onDiskStore.Get"]; fd != nil {
+		ast.Inspect(fd.Body, func(n ast.Node) bool {
+			blk, ok := n.(*ast.BlockStmt)
+			if !ok {
+				return true
+			}
+			for i := 0; i+1 < len(blk.List); i++ {
+				as, ok := blk.List[i].(*ast.AssignStmt)
+				if !ok || len(as.Rhs) != 1 || len(as.Lhs) != 2 || identLit(as.Lhs[1]) != "err" {
+					continue
+				}
+				call, ok := as.Rhs[0].(*ast.CallExpr)
+				if !ok || c09ExprString(call.Fun) != "c.gcm.Open" {
+					continue
+				}
+				openFailKnown = true
+				ifs, ok := blk.List[i+1].(*ast.IfStmt)
+				if !ok || ifs.Init != nil || c09ExprString(ifs.Cond) != "err != nil" || ifs.Else != nil || len(ifs.Body.List) != 2 {
+					continue
+				}
+				es, ok1 := ifs.Body.List[0].(*ast.ExprStmt)
+				_, ok2 := ifs.Body.List[1].(*ast.ReturnStmt)
+				if !ok1 || !ok2 {
+					continue
+				}
+				cw, ok := es.X.(*ast.CallExpr)
+				if !ok || c09ExprString(cw.Fun) != "writer.CloseWithError" || len(cw.Args) != 1 {
+					continue
+				}
+				switch a := cw.Args[0].(type) {
+				case *ast.Ident:
+					openFailErr = a.Name == "err"
+				case *ast.CallExpr: // fmt.Errorf("…%w", …, err): never nil
+					openFailErr = c09ExprString(a.Fun) == "fmt.Errorf" && len(a.Args) >= 2 && identLit(a.Args[len(a.Args)-1]) == "err"
 				}
 			}
 			return true
@@ -357,6 +426,7 @@ func factsStore(c *factsCtx, outdir string) error {
 	fmt.Fprintf(&b, "/-- `getEncryptedBlockSize` is `blockSize + aead.Overhead()` (size of the pieces `Get` reads) -/\ndef pieceIsBlockPlusOverhead : Option Bool := %s\n\n", c09LeanOptB(pieceKnown, pieceOK))
 	fmt.Fprintf(&b, "/-- `c.gcm.Seal(_, nonce, _, nil)`: the file's one nonce, no additional data (no block index) -/\ndef sealAADNil : Option Bool := %s\n\n", c09LeanOptB(sealKnown, sealNil))
 	fmt.Fprintf(&b, "/-- `c.gcm.Open(_, nonce, _, nil)` -/\ndef openAADNil : Option Bool := %s\n\n", c09LeanOptB(openKnown, openNil))
+	fmt.Fprintf(&b, "/-- `Get`, reader goroutine: `decrypted, err := c.gcm.Open(…); if err != nil { writer.CloseWithError(<that err, wrapped>); return }` - a piece that does not open ends the stream handed to the LZ4 reader with an error, not with end of file (`Term.fail`) -/\ndef openFailureFailsPipe : Option Bool := %s\n\n", c09LeanOptB(openFailKnown, openFailErr))
 	fmt.Fprintf(&b, "/-- `Get`: `if _, err := decompressor.WriteTo(&b); err != nil { if !errors.Is(err, io.EOF) { return nil, err } }` -/\ndef getSwallowsEOF : Option Bool := %s\n\n", c09LeanOptB(eofKnown, eofSwallowed))
 	b.WriteString("/-- options applied to the lz4.Writer in `Set` -/\ndef lz4Options : List String := [")
 	for i, o := range lz4opts {
